@@ -151,6 +151,15 @@ def _impl(tier, seed, search):
             def m2(x): return np.asarray(x.exp().A, float)
             ok, r = L.noraise('Twist2:compose', lambda: (m2(u1 * u2), m2(u1) @ m2(u2)), inp, 'Twist2 * Twist2')
             if ok: L.close('Twist2:compose', r[0], r[1], 1e-7, max(1.0, geom.tmag(r[1])), inp)
+            # compositions whose net rotation is tiny, nearly cancels, or is a full / half turn; identity twist
+            th_s = float(g.choice([10.0 ** g.uniform(-12, -3), 0.8, math.pi, math.pi / 2]))
+            for ua, ub in ((Twist2(np.r_[tr(g, -3, 1)[:2], th_s]), Twist2(np.zeros(3))),
+                           (Twist2(np.r_[tr(g, -3, 1)[:2], 0.8]), Twist2(np.r_[tr(g, -3, 1)[:2], -0.8 + 10.0 ** g.uniform(-9, -4)])),
+                           (Twist2(np.r_[tr(g, -3, 1)[:2], math.pi]), Twist2(np.r_[tr(g, -3, 1)[:2], math.pi])),
+                           (Twist2(np.r_[tr(g, -3, 1)[:2], 10.0 ** g.uniform(-10, -5)]), Twist2(np.r_[tr(g, -3, 1)[:2], 10.0 ** g.uniform(-10, -5)]))):
+                inps = dict(S1=ua.S, S2=ub.S)
+                ok, r = L.noraise('Twist2:compose(special)', lambda: (m2(ua * ub), m2(ua) @ m2(ub)), inps, 'Twist2 * Twist2 (small / cancelling / half-turn rotations)')
+                if ok: L.close('Twist2:compose(special)', r[0], r[1], 1e-7, max(1.0, geom.tmag(r[1])), inps, what='exp(X*Y) differs from exp(X) exp(Y) for planar twists with a small or cancelling net rotation', sig='Twist2:compose:special')
             ok, r = L.noraise('Twist2:inverse', lambda: (m2(u1) @ m2(u1.inv()), np.eye(3)), inp, 'Twist2.inv()')
             if ok: L.close('Twist2:inverse', r[0], r[1], 1e-7, max(1.0, geom.tmag(m2(u1))), inp)
         # random expression trees evaluated by the class operators vs plain numpy
